@@ -22,6 +22,15 @@ for m in MODULES:
         progs.append((f"import:{m}.{a}", assemble([op("GLOBAL", (m, a)), op("STOP")])))
         progs.append((f"call:{m}.{a}", assemble([op("GLOBAL", (m, a)), op("EMPTY_TUPLE"), op("REDUCE"), op("STOP")])))
         progs.append((f"sg:{m}.{a}", assemble([op("PROTO", 4), op("SHORT_BINUNICODE", m), op("SHORT_BINUNICODE", a), op("STACK_GLOBAL"), op("STOP")])))
+# opcode-level findings at every position: one extra PROTO inserted before the k-th opcode of a 35-opcode pickle (messages that count positions)
+import pickle as _pickle  # noqa: E402
+import pickletools as _pt  # noqa: E402
+_base = _pickle.dumps(list(range(30)), protocol=2)
+_offs = [pos for _, _, pos in _pt.genops(_base)]
+for _k, _off in enumerate(_offs):
+    progs.append((f"extra-proto-before-opcode-{_k}", _base[:_off] + b"\x80\x02" + _base[_off:]))
+    if _k % 7 == 3:
+        progs.append((f"extra-proto-other-version-before-opcode-{_k}", _base[:_off] + b"\x80\x03" + _base[_off:]))
 progs += corpus()
 fails, n, undecomp = [], 0, 0
 for name, data in progs:
@@ -58,4 +67,5 @@ for name, data in progs:
                 fails.append({"program": name, "bytes": data.hex(), "error": f"UnsafeFileError.info not JSON: {ex}"})
         except Exception as e:  # noqa
             fails.append({"program": name, "bytes": data.hex(), "error": f"loader.load: {type(e).__name__}: {e}"[:300]})
-print(json.dumps({"failures": fails[:20], "n_failures": len(fails), "programs": n, "not_decompilable": undecomp}))
+from _report import spread  # noqa: E402
+print(json.dumps({"failures": spread(fails, lambda f: (f["program"].split(":")[0].rstrip("0123456789"), f["error"][:40]), per=3), "n_failures": len(fails), "programs": n, "not_decompilable": undecomp}))
